@@ -755,6 +755,7 @@ func runC13(c *Ctx) error {
 		c13One(c, m, &f.Case)
 		return nil
 	}
+	kfReproC13(c.Rep)
 	n := c.N(1500, 80000)
 	var recent []*c13Row
 	for i := 0; i < n; i++ {
